@@ -28,7 +28,8 @@ class TransformToLogSpace(_AbstractDistribution):
             self.distribution.misfit(_m)
             # - _numpy.log(_numpy.linalg.det(self.jacobian(m)))
             # For diagonal jacobians:
-            - _numpy.sum(_numpy.log(_numpy.diag(self.jacobian(m))))
+            # (absolute value: the Jacobian is negative for a base below one)
+            - _numpy.sum(_numpy.log(_numpy.abs(_numpy.diag(self.jacobian(m)))))
             + self.misfit_bounds(m)
         )
 
